@@ -283,18 +283,31 @@ def gen_synth_lu(rng, sizes=None):
         f += w
     col2sup.append(len(sizes) - 1)
     uval, urow, ucb, uce = [], [], [0] * n, [0] * n
-    for j in range(n):
+    # U is column-permuted storage (SLU_NCP): with several workers the library hands out ucol[] space in column COMPLETION order,
+    # so the columns of one supernode are in general neither adjacent nor ascending in storage, and unused space may lie between them
+    order = list(range(n))
+    ustore = rng.choice(["ascending", "shuffled", "shuffled", "reversed"])
+    if ustore == "shuffled":
+        rng.shuffle(order)
+    elif ustore == "reversed":
+        order.reverse()
+    ugap = rng.random() < 0.4
+    for j in order:
         fs = supbeg[col2sup[j]]
         rows = [i for i in range(fs) if rng.random() < 0.4]
         if rng.random() < 0.3:
             rng.shuffle(rows)
+        if ugap:
+            g = rng.randint(0, 2)
+            urow += [0] * g
+            uval += [123.0] * g
         ucb[j] = len(urow)
         urow += rows
         uval += [rnd_val(rng, style) for _ in rows]
         uce[j] = len(urow)
     return {"n": n, "nsuper": len(sizes) - 1, "lval": lval, "nzbeg": nzbeg, "nzend": nzend, "rowind": rowind, "ribeg": ribeg,
             "riend": riend, "col2sup": col2sup, "supbeg": supbeg, "supend": supend, "uval": uval, "urowind": urow,
-            "ucolbeg": ucb, "ucolend": uce, "sizes": sizes, "style": style, "src": "synthetic"}
+            "ucolbeg": ucb, "ucolend": uce, "sizes": sizes, "style": style, "src": "synthetic", "ustore": ustore}
 
 
 def gen_factor_matrix(rng, kind=None):
